@@ -20,7 +20,11 @@ func (berStream) Rule() string {
 func (berStream) Generate(rng *rand.Rand, n int, thorough bool) []Case {
 	var cs []Case
 	for len(cs) < n {
-		cs = append(cs, Case{Line: "ber " + hx(genFrame(rng)), Kind: "frame"})
+		f := genFrame(rng)
+		if declaresHugeLength(f) {
+			continue
+		}
+		cs = append(cs, Case{Line: "ber " + hx(f), Kind: "frame"})
 	}
 	return cs
 }
@@ -158,7 +162,11 @@ func (s decodeStream) Generate(rng *rand.Rand, n int, thorough bool) []Case {
 			}
 			cs = append(cs, decodeCase(frame, req.Expected(fo), req.Kind))
 		} else {
-			cs = append(cs, decodeCase(genFrame(rng), "", "hostile"))
+			f := genFrame(rng)
+			if declaresHugeLength(f) {
+				continue
+			}
+			cs = append(cs, decodeCase(f, "", "hostile"))
 		}
 	}
 	return cs
